@@ -196,3 +196,12 @@ def check_load(rec, r, work):
         rec.event('load.compared')
         if got != want:
             rec.violation('ic-load', f'load() of {lines} = {got}, expected {want}')
+        # the documented hook for other identifier schemes: called with offset= and pos=, result used as the synset id
+        calls = []
+
+        def my_id(offset, pos):
+            calls.append((offset, pos))
+            return f'icl-{offset:08}-{pos}'
+        got2 = wn.ic.load(p, w, get_synset_id=my_id)
+        if got2 != want or not calls:
+            rec.violation('ic-load', f'load(get_synset_id=...) of {lines} = {got2}, expected {want} ({len(calls)} calls of the hook)')
